@@ -87,6 +87,8 @@ def showOut : Out → String
 def runShow (cfg : Cfg) : St → List Op → List String
   | _, [] => []
   | st, o :: os =>
+    -- `os.listdir` order as arranged by the harness: ascending id (a permutation of the store)
+    let st := match o with | .sweep => { st with store := sortPairs st.store } | _ => st
     let r := step cfg st o
     (showOut r.2 ++ "@" ++ showListing r.1.store) :: runShow cfg r.1 os
 
